@@ -15,6 +15,7 @@ struct FitProblem {
   std::vector<double> y, w;
   bool single_smooth = false, single_porder = false;  // pass length-1 containers
   std::string data_class, listing;
+  int unsorted_dim = -1;                         // dimension whose abscissae are not ascending (-1: none)
   size_t nrows() const { return y.size(); }
   std::vector<size_t> nfun() const { std::vector<size_t> n; for (uint32_t d = 0; d < ndim; d++) n.push_back(knots[d].size() - order[d] - 1); return n; }
   size_t ncoeff() const { size_t n = 1; for (auto v : nfun()) n *= v; return n; }
@@ -83,6 +84,15 @@ inline FitProblem gen_fit_problem(Chooser& ch, const FitGenOpts& fo) {
   size_t ngrid = 1; for (auto& c : p.coords) ngrid *= c.size();
   // thin the grid if it is too large
   while (ngrid > fo.max_rows) { size_t big = 0; for (size_t d = 1; d < p.ndim; d++) if (p.coords[d].size() > p.coords[big].size()) big = d; size_t before = p.coords[big].size(); if (before <= 2 * p.order[big] + 4) break; p.coords[big].erase(p.coords[big].begin() + (long)(before / 2)); ngrid = ngrid / before * (before - 1); }
+  // abscissae need not be listed in ascending order: the data refer to them by index
+  if (gen_version() >= 2 && ch.coin(1, 4)) {
+    uint32_t ud = (uint32_t)ch.draw(0, p.ndim - 1);
+    uint64_t s3 = ch.draw(0, 0xffff);
+    std::vector<double>& c = p.coords[ud];
+    if (s3 == 0) std::reverse(c.begin(), c.end());
+    else for (size_t i = c.size() - 1; i > 0; i--) std::swap(c[i], c[(size_t)(mix64(s3 ^ mix64(i)) % (i + 1))]);
+    p.unsorted_dim = (int)ud;
+  }
   int shape = (int)ch.draw(0, 5);
   static const char* shapes[] = {"smooth", "noisy", "decreasing", "oscillating", "step", "constant"};
   p.data_class = shapes[shape];
@@ -125,6 +135,7 @@ inline FitProblem gen_fit_problem(Chooser& ch, const FitGenOpts& fo) {
     }
     p.listing = "shuffled";
   } else p.listing = "grid_order";
+  if (p.unsorted_dim >= 0) p.listing += "+unsorted_abscissae";
   return p;
 }
 
